@@ -153,6 +153,14 @@ def curated_classes():
             ('apply', ('rep', ('where', T, ('py', 'lambda t: t != mark')), ('name', 'size'), ('name', 'size')),
              ('py', 'lambda xs: (size, mark, xs)'))])))),
         ('rule', 'Wb', ['p'], ('right', ('str', '['), ('left', ('ref', 'p'), ('str', ']'))))]))
+    # several requires members, adjacent and apart, whose conditions have low-precedence operators
+    # (each condition is its own predicate: all must hold)
+    out.append(('class-requires-adjacent', [
+        ('rule', 'start', None, ('star', ('alt', [('ref', 'Pr'), ('ref', 'Cd'), ('ref', 'Lm'), D]))),
+        ('class', 'Pr', None, [('pass', ('str', 'p')), ('field', 'a', D), ('field', 'b', D), ('requires', 'a == 0 or b == 0'), ('requires', 'a != b')]),
+        ('class', 'Cd', None, [('pass', ('str', 'c')), ('field', 'a', D), ('field', 'b', D), ('requires', 'a if b else 1'), ('requires', 'b or a'),
+                               ('field', 'c', ('opt', ('str', '!'))), ('requires', 'a < 3 or c')]),
+        ('class', 'Lm', None, [('pass', ('str', 'l')), ('field', 'a', D), ('requires', 'a != 1'), ('field', 'b', D), ('requires', 'not a or b'), ('requires', 'a + b != 5')])]))
     out.append(('class-param', [
         ('rule', 'start', None, ('let', 'k', D, ('seq', [('call', 'Q', [('ref', 'k'), ('str', 'a')]), ('opt', ('call', 'Q', [('py', 'k + 1'), ('str', 'b')]))]))),
         ('class', 'Q', ['n', 'p'], [('field', 'items', ('rep', ('ref', 'p'), ('name', 'n'), ('name', 'n'))),
@@ -212,6 +220,13 @@ def is_curated_shadow(G):
     return gast.render_grammar(G) in descs
 
 
+EXTRA_INPUTS = {
+    # every pair of digits behind every class letter (the requires conditions are decided by the pair)
+    'class-requires-adjacent': [h + x + y + t for h in 'pcl' for x in '0123' for y in '0123' for t in ('', '!')] +
+                               ['p00p01', 'c10!c00', 'l23l32', 'p01 ', '3p10'],
+}
+
+
 def run_one(rec, G, tag, rounds, trace=False):
     if not gen.well_formed(G):
         rec.drop()
@@ -222,6 +237,8 @@ def run_one(rec, G, tag, rounds, trace=False):
         rec.drop()
         return
     ins = work.guided_inputs(rec.rng, chain, work.grammar_alphabet(G, '!'), rounds=rounds)
+    if isinstance(tag, tuple) and len(tag) > 1:
+        ins = ins + [t for t in EXTRA_INPUTS.get(tag[1], []) if t not in ins]
     entries = [e for e in work.rule_entries(G) if e != 'Tok']
     work.run_grammar(rec, G, ins, tag, entries=entries if len(entries) <= 3 else entries[:3],
                      nontrivial=nontrivial, sigprefix=sig_for(G, tag if isinstance(tag, tuple) else None), trace=trace)
